@@ -182,7 +182,7 @@ def exReq : List SLayer :=
 
 /-- its mirrored reply with the UDP source port changed -/
 def exStranger : List RLayer :=
-  [.eth [0, 0x11, 0x22, 0x33, 0x44, 0x55] [0x66, 0x77, 0x88, 0x99, 0xaa, 0xbb], .vlan [0x20, 0x64],
+  [.eth [0, 0x11, 0x22, 0x33, 0x44, 0x55] [0x66, 0x77, 0x88, 0x99, 0xaa, 0xbb], .vlan .ctag [0x20, 0x64],
    .ip4 [0, 0, 0, 0, 0, 0, 0, 64] [0, 0] [192, 168, 0, 2] [192, 168, 0, 1] [],
    .udp [0, 0x36] [0x12, 0x34] [0, 0, 0, 0], .dns [0xbe, 0xef] [0x80, 0, 0, 0, 0, 0, 0, 0, 0, 0]]
 
@@ -205,7 +205,7 @@ def exReq6 : List SLayer :=
 /-- a mirrored reply behind hop-by-hop options, a first-fragment header and a 16-octet destination-options header,
     with another priority on the inner tag, another flow label and hop limit, and echo data -/
 def exReply6 (id : Bytes) : List RLayer :=
-  [.eth [0, 0x11, 0x22, 0x33, 0x44, 0x55] [0x66, 0x77, 0x88, 0x99, 0xaa, 0xbb], .vlan [0xe0, 0x64], .vlan [0x20, 0x07],
+  [.eth [0, 0x11, 0x22, 0x33, 0x44, 0x55] [0x66, 0x77, 0x88, 0x99, 0xaa, 0xbb], .vlan .stag [0xe0, 0x64], .vlan .ctag [0x20, 0x07],
    .ip6 [0x0a, 0xbc, 0xde, 0, 0x30] 3 [0x20, 1, 0xd, 0xb8, 0, 0, 0, 0, 0, 0, 0, 0, 0, 0, 0, 2]
      [0x20, 1, 0xd, 0xb8, 0, 0, 0, 0, 0, 0, 0, 0, 0, 0, 0, 1]
      [⟨0, 0, [1, 4, 0, 0, 0, 0]⟩, ⟨44, 0, [0, 1, 0xca, 0xfe, 0xba, 0xbe]⟩, ⟨60, 1, [1, 12, 0, 0, 0, 0, 0, 0, 0, 0, 0, 0, 0, 0]⟩],
